@@ -152,6 +152,7 @@ func main() {
 			"rotation and impact jobs are gated at their loop heads while sequences are judged",
 			"a report is the 80-byte datagram including its signature: the same content under a second valid signature (v') is a second distinct report, so {v, v'} must ban in either order",
 			"bulk delivery goes through VerifInject (the function the UDP listener calls); a sample of sequences goes through the real socket",
+			"fault sequences: one delivery per sequence happens while equipment-reports.dat cannot be opened (ENOENT); the published value must still follow the set of reports received; what a restart reconstructs after a lost append is not judged here",
 			"the race-variant stress batch judges only the final values (function of the delivered set); race reports are recorded, not judged, because the property does not claim race freedom",
 		},
 		Plan:          plan,
@@ -194,12 +195,14 @@ func plan(tier string, seed int64) []run.Batch {
 		add("perm", 0, 48, "")
 		add("rand", 250, 80, "") // 20 000 random interleaved sequences
 		add("burst", 60, 6, "")
+		add("fault", 400, 8, "")
 		add("stress", 400, 1, "race")
 	} else {
 		add("exh", 0, 8, "")
 		add("perm", 150, 8, "") // all multisets of size <= 3 plus 150 sampled multisets of size 4
 		add("rand", 100, 4, "")
 		add("burst", 30, 2, "")
+		add("fault", 150, 2, "")
 		add("stress", 120, 1, "race")
 	}
 	return bs
@@ -242,7 +245,7 @@ func post(c *ev.Check, outs []*run.Outcome) {
 		return
 	}
 	// positive controls: the monitor must have seen every kind of transition
-	for _, k := range []string{"obs.single_value", "obs.replay_kept", "obs.equivocation_ban", "obs.overcapacity_ban", "obs.banned_stays", "obs.negative_published", "obs.limit_published", "obs.resigned_ban", "burst.judged",
+	for _, k := range []string{"obs.single_value", "obs.replay_kept", "obs.equivocation_ban", "obs.overcapacity_ban", "obs.banned_stays", "obs.negative_published", "obs.limit_published", "obs.resigned_ban", "burst.judged", "fault.on_banning_report",
 		"via_socket", "via_hook", "surface.stats", "surface.sync", "surface.recent", "perm.classes_compared", "rand.sequences", "stress.cells"} {
 		c.Require(k, 1)
 	}
@@ -341,6 +344,7 @@ type env struct {
 	dead      bool
 	udp       *drv.StrictUDP
 	fullBans  int
+	faultNext bool // the next delivery happens while equipment-reports.dat is unavailable
 	savedViol int
 }
 
@@ -575,7 +579,29 @@ func (e *env) deliver(c *cell, rep refenc.Report, name string, socket bool, now 
 	b := rep.Bytes()
 	c.sent = append(c.sent, hex.EncodeToString(b))
 	c.names = append(c.names, name)
-	run.Op("deliver dev=%d slot=%d now=%d offset=%d socket=%v letter=%s bytes=%x", c.d.ID, c.slot, now, e.offset, socket, name, b)
+	run.Op("deliver dev=%d slot=%d now=%d offset=%d socket=%v fault=%v letter=%s bytes=%x", c.d.ID, c.slot, now, e.offset, socket, e.faultNext, name, b)
+	if e.faultNext {
+		// the report log cannot be opened while this one report is processed (the server opens it without O_CREATE)
+		e.faultNext = false
+		name += "!"
+		c.names[len(c.names)-1] = name
+		logPath := filepath.Join(e.w.Dir, "equipment-reports.dat")
+		if err := os.Rename(logPath, logPath+".away"); err != nil {
+			e.r.Inconc("fault injection: " + err.Error())
+			return false
+		}
+		defer func() {
+			if _, err := os.Stat(logPath); err == nil { // the server created a new log: keep its records behind the old ones
+				old, _ := os.ReadFile(logPath + ".away")
+				created, _ := os.ReadFile(logPath)
+				os.WriteFile(logPath, append(old, created...), 0644)
+				os.Remove(logPath + ".away")
+			} else {
+				os.Rename(logPath+".away", logPath)
+			}
+		}()
+		e.r.Count("fault.deliveries", 1)
+	}
 	if socket {
 		if !e.udp.Send(b) {
 			e.r.Inconc("socket delivery: the datagram was not processed within 10s (lost on loopback?)")
@@ -1112,6 +1138,69 @@ func (e *env) runRandom() bool {
 	return e.r.NumViolations() <= 20
 }
 
+// ---------------------------------------------------------------- report log unavailable for one delivery
+
+// runFaultSeq plays a sequence in which one delivery (preferably the one that
+// bans the slot) happens while equipment-reports.dat cannot be opened. The
+// published value is a function of the reports RECEIVED, whatever becomes of
+// the log: the set rule keeps holding, during the rest of the sequence too
+// (replays of earlier reports, further letters). No restart in such a sequence.
+func (e *env) runFaultSeq() bool {
+	if !e.needWorld(1) {
+		return false
+	}
+	e.seqN++
+	d := e.devs[e.rng.Intn(len(e.devs))]
+	c := e.freshCell(d)
+	now := e.setClockFor(c.slot, c.slot)
+	n := 2 + e.rng.Intn(3)
+	seq := make([]letter, n)
+	for i := range seq {
+		seq[i] = sigma10[e.rng.Intn(len(sigma10))]
+	}
+	if e.rng.Intn(3) != 0 { // start with a report that does not ban by itself
+		seq[0] = []letter{Lv, Lw, Llim, Lneg63, Lneg5, L2, L3}[e.rng.Intn(7)]
+	}
+	// index of the delivery that makes the model ban
+	banAt := -1
+	pm := cellModel{capacity: d.cap}
+	for i, l := range seq {
+		pm.add(e.mk(c, l))
+		if pm.mustBan() {
+			banAt = i
+			break
+		}
+	}
+	faultAt := banAt
+	if faultAt < 0 || e.rng.Intn(4) == 0 {
+		faultAt = e.rng.Intn(n)
+	}
+	// afterwards: replays of what was sent and one more letter
+	tail := []letter{seq[0], seq[e.rng.Intn(n)], sigma10[e.rng.Intn(len(sigma10))]}
+	socket := e.seqN%5 == 2
+	before := e.snap
+	for i, l := range append(seq, tail...) {
+		e.faultNext = i == faultAt
+		if !e.deliver(c, e.mk(c, l), l.String(), socket, now) {
+			return false
+		}
+		if i == faultAt && i == banAt {
+			e.r.Count("fault.on_banning_report", 1)
+		}
+	}
+	after := e.w.S.VerifSnapshot(true)
+	e.snap = after
+	got := after.Reports[d.ID][c.idx]
+	e.judge(c, got, now, "in the snapshot after the sequence with an unavailable report log")
+	e.compareWhole(before, after, []*cell{c}, now, "sequence with an unavailable report log")
+	e.finish(c, got.PowerOutput)
+	e.surfaces(after, []*cell{c}, e.seqN%8 == 0, now)
+	e.r.Eval(1)
+	e.r.Count("fault.sequences", 1)
+	e.r.Nontrivial("fault:" + strings.Join(c.names, " "))
+	return e.r.NumViolations() <= 20
+}
+
 // ---------------------------------------------------------------- back-to-back bursts through the real socket
 
 // runBursts sends bursts of distinct reports for distinct fresh cells through the
@@ -1446,6 +1535,12 @@ func child(b run.Batch, r *ev.Result) {
 		e.ndev = 3
 		for i := 0; i < b.N; i++ {
 			if !e.runRandom() {
+				break
+			}
+		}
+	case "fault":
+		for i := 0; i < b.N; i++ {
+			if !e.runFaultSeq() {
 				break
 			}
 		}
